@@ -19,6 +19,7 @@ The user's `on_command` handler is a parameter (`Handler`): for a command `v` it
 One `Ev` = one iteration of the agent loop (`read` is the runtime taking a frame from a lane's channel).
 -/
 import SwimVerif.Model.SupplyLane
+import SwimVerif.Model.AssocList
 
 namespace SwimVerif.CL
 
@@ -51,6 +52,11 @@ structure Handler where
   pushes : Nat → List Nat
   selfCmd : Nat → Option Nat
   sends : Nat → List AdHoc := fun _ => []   -- ad hoc commands `on_command(v)` sends, after its supplies
+  /-- commands `on_command(v)` then sends through `Commander`s (`Commander::send` = overwritable,
+  `send_queued` = not). The lifecycle keeps one commander per target; it creates it on first use … -/
+  csends : Nat → List AdHoc := fun _ => []
+  /-- … and creates it AGAIN (`create_commander` for an address already registered) when this says so -/
+  recreate : AdHoc → Bool := fun _ => false
 
 /-- a command body as the lane's decoder sees it -/
 inductive Body
@@ -94,17 +100,30 @@ structure SupSide where
   requested : List Nat := []            -- sync requests received, in order
   deriving Repr
 
-/-- the agent task's side of ad hoc commands: `command_buffer` (every `send_ad_hoc_command` appends an encoded
-`CommandMessage::Addressed`), `cmd_writer: Option<CommandWriter>` (lent to the write in `cmd_send_fut`), the ad hoc
-byte channel to the runtime at record granularity. -/
+/-- a record in the ad hoc command channel: `CommandMessage::{Addressed, Register, Registered}` -/
+inductive Rec
+  | addressed (a : AdHoc)                      -- explicit address with every command
+  | register (target : Nat) (id : Nat)         -- `Register { address, id }` (written by `register_commander`)
+  | byId (id : Nat) (value : Nat) (ow : Bool)  -- `Registered { target: id, command, overwrite_permitted }`
+  deriving DecidableEq, Repr
+
+/-- the agent task's side of ad hoc commands: `command_buffer` (every `send_ad_hoc_command` /
+`register_commander` / `send_registered_command` appends an encoded `CommandMessage`), `cmd_writer:
+Option<CommandWriter>` (lent to the write in `cmd_send_fut`), the ad hoc byte channel to the runtime at record
+granularity; `CommanderIds {next_id, assigned}` (the id allocator behind `create_commander`); the lifecycle's own
+table of the commanders it holds. -/
 structure AdSide where
-  buf : List AdHoc := []         -- `command_buffer`
+  buf : List Rec := []           -- `command_buffer`
   home : Bool := true            -- `cmd_writer.is_some()`
-  inflight : List AdHoc := []    -- `CommandWriter.buffer` of the write in `cmd_send_fut`
-  chan : List AdHoc := []        -- written to the channel, not yet read by the runtime
+  inflight : List Rec := []      -- `CommandWriter.buffer` of the write in `cmd_send_fut`
+  chan : List Rec := []          -- written to the channel, not yet read by the runtime
+  nextId : Nat := 0                      -- `CommanderIds.next_id`
+  assigned : List (Nat × Nat) := []      -- `CommanderIds.assigned`: address ↦ id
+  cache : List (Nat × Nat) := []         -- user state: target ↦ the id inside the `Commander` the lifecycle holds
   -- ghost
-  taken : List AdHoc := []       -- read by the runtime, in order
-  issued : List AdHoc := []      -- every command a handler sent, in order
+  taken : List Rec := []         -- read by the runtime, in order
+  issued : List Rec := []        -- every record a handler produced, in order
+  intended : List (Bool × AdHoc) := []   -- every command sent (`true` = through a commander), with the target MEANT
   deriving Repr
 
 structure St where
@@ -132,10 +151,41 @@ def supplyAll (s : St) : List Nat → St
     supplyAll { s with sup := { s.sup with lane := s.sup.lane.push a, dirty := true },
                        trace := s.trace ++ [.push a] } rest
 
-/-- `SendCommand` actions of a handler, one after the other: `action_context.send_ad_hoc_command` appends to
-`command_buffer` -/
-def sendAll (s : St) (as : List AdHoc) : St :=
-  { s with ad := { s.ad with buf := s.ad.buf ++ as, issued := s.ad.issued ++ as } }
+/-- `SendCommand`: `action_context.send_ad_hoc_command` appends an `Addressed` record to `command_buffer` -/
+def AdSide.send (a : AdSide) (x : AdHoc) : AdSide :=
+  { a with buf := a.buf ++ [.addressed x], issued := a.issued ++ [.addressed x], intended := a.intended ++ [(false, x)] }
+
+/-- `RegisterCommander`: `CommanderIds::get_request` (the id the address already has, else `next_id`, which is then
+incremented) and a `Register { address, id }` record — also when the address was registered before -/
+def AdSide.register (a : AdSide) (t : Nat) : AdSide × Nat :=
+  match alGet a.assigned t with
+  | some id => ({ a with buf := a.buf ++ [.register t id], issued := a.issued ++ [.register t id] }, id)
+  | none =>
+    ({ a with nextId := a.nextId + 1, assigned := alSet a.assigned t a.nextId,
+              buf := a.buf ++ [.register t a.nextId], issued := a.issued ++ [.register t a.nextId] }, a.nextId)
+
+/-- `SendCommandById`: a `Registered` record carrying the commander's id -/
+def AdSide.sendById (a : AdSide) (id : Nat) (x : AdHoc) : AdSide :=
+  { a with buf := a.buf ++ [.byId id x.value x.ow], issued := a.issued ++ [.byId id x.value x.ow],
+           intended := a.intended ++ [(true, x)] }
+
+/-- one send through the lifecycle's commander for `x.target` (created now if it holds none, or if `recreate`) -/
+def AdSide.csend (a : AdSide) (re : Bool) (x : AdHoc) : AdSide :=
+  match (if re then none else alGet a.cache x.target) with
+  | some id => a.sendById id x
+  | none =>
+    let r := a.register x.target
+    { r.1 with cache := alSet r.1.cache x.target r.2 }.sendById r.2 x
+
+/-- everything one `on_command(w)` does to the ad hoc side: its `SendCommand`s, then its commander sends -/
+def adHandler (h : Handler) (a : AdSide) (w : Nat) : AdSide :=
+  (h.csends w).foldl (fun a x => a.csend (h.recreate x) x) ((h.sends w).foldl AdSide.send a)
+
+/-- … and one received command `v`: the nested handler (if `v`'s handler commands its own lane) runs first -/
+def Handler.adAfter (h : Handler) (a : AdSide) (v : Nat) : AdSide :=
+  adHandler h (match h.selfCmd v with | some u => adHandler h a u | none => a) v
+
+def sendAll (h : Handler) (s : St) (w : Nat) : St := { s with ad := adHandler h s.ad w }
 
 /-- `DoCommand(v)`: `lane.command(v)`, `Modification::of(lane)` = dirty + trigger -/
 def setCommand (s : St) (v : Nat) : St :=
@@ -157,8 +207,8 @@ def doCommand (h : Handler) (s : St) (v : Nat) : St :=
         let t1 := setCommand s2 u
         match t1.cmd.lane.prev with
         | none => t1
-        | some u' => sendAll (supplyAll { t1 with trace := t1.trace ++ [.inv u'] } (h.pushes u')) (h.sends u')
-    sendAll (supplyAll s3 (h.pushes w)) (h.sends w)
+        | some u' => sendAll h (supplyAll { t1 with trace := t1.trace ++ [.inv u'] } (h.pushes u')) u'
+    sendAll h (supplyAll s3 (h.pushes w)) w
 
 /-- the event proper (before `dirty_items.retain`) -/
 def handleEv (h : Handler) (s : St) : Ev → St
@@ -273,9 +323,28 @@ def validCmds : List Body → List Nat
 def Handler.expand (h : Handler) (v : Nat) : List Nat :=
   v :: (match h.selfCmd v with | some u => [u] | none => [])
 
-/-- the ad hoc commands one received command makes the handlers send, in order -/
-def Handler.issuedBy (h : Handler) (v : Nat) : List AdHoc :=
-  (match h.selfCmd v with | some u => h.sends u | none => []) ++ h.sends v
+/-- what one `on_command(w)` sends, in order: ad hoc commands, then commands through commanders (tagged `true`) -/
+def Handler.sentBy (h : Handler) (w : Nat) : List (Bool × AdHoc) :=
+  (h.sends w).map (fun x => (false, x)) ++ (h.csends w).map (fun x => (true, x))
+
+/-- the commands one received command makes the handlers send, with the targets they are meant for, in order -/
+def Handler.intendedBy (h : Handler) (v : Nat) : List (Bool × AdHoc) :=
+  (match h.selfCmd v with | some u => h.sentBy u | none => []) ++ h.sentBy v
+
+/-! ### the runtime's view of the record stream (`external_links_task`): `CommanderIds::set_id` binds the id to the
+endpoint (REPLACING whatever the id was bound to), `endpoint_for(id)` resolves a `Registered` record; a record for an
+id that was never registered is dropped with an error -/
+
+/-- `(id ↦ target bindings, commands with the target they are appended for)` after one more record -/
+def stepResolve (st : List (Nat × Nat) × List (Bool × AdHoc)) : Rec → List (Nat × Nat) × List (Bool × AdHoc)
+  | .addressed x => (st.1, st.2 ++ [(false, x)])
+  | .register t id => (alSet st.1 id t, st.2)
+  | .byId id v ow =>
+    match alGet st.1 id with
+    | some t => (st.1, st.2 ++ [(true, { target := t, value := v, ow := ow })])
+    | none => st
+
+def resolveRun (rs : List Rec) : List (Nat × Nat) × List (Bool × AdHoc) := rs.foldl stepResolve ([], [])
 
 /-- the items one received command makes the handlers supply, in order -/
 def Handler.supplied (h : Handler) (v : Nat) : List Nat :=
@@ -286,7 +355,8 @@ runtime). `new <stall>`: with `stall = 1` the lanes' output channels are smaller
 exactly when the harness reads the frame; with `0` they never fill up.
 `cmd <c|s> <body>` | `sync <c|s> <r>` | `read <c|s>`; output `h=<log since the last op> f=<frame read|->`.
 `readcmd <n>`: the harness reads up to `n` records from the ad hoc command channel (capacity `new <stall> <cap>`, far
-smaller than a burst) with the real `CommandMessageDecoder`; output `h=- f=- a=<target>:<value>:<ow>,…`. Reading drains
+smaller than a burst) with the real `CommandMessageDecoder`; output `h=- f=- a=<record>,…` with records
+`<target>:<value>:<ow>` (`Addressed`), `R<target>=<id>` (`Register`), `#<id>:<value>:<ow>` (`Registered`). Reading drains
 the channel, so every write in flight completes and the agent starts the next one: the records are the commands
 issued, in order, regardless of how they were batched. -/
 
@@ -296,7 +366,11 @@ def rigHandler : Handler where
   selfCmd := fun v => if v % 7 = 5 then some (v + 1) else none
   -- `(v / 4) % 5` ad hoc commands, a burst of 60 when `v % 11 = 0`; targets `/t0 … /t2`, mixed overwrite flags
   sends := fun v => (List.range (if v % 11 = 0 then 60 else (v / 4) % 5)).map
-    (fun i => { target := (v + i) % 3, value := v * 100 + i, ow := (v + i) % 2 = 0 })
+    (fun i => { target := (v + i) % 3, value := v * 1000 + i, ow := (v + i) % 2 = 0 })
+  -- `(v / 3) % 4` commands through commanders, a burst of 40 when `v % 13 = 0`; targets `/t0 … /t3`
+  csends := fun v => (List.range (if v % 13 = 0 then 40 else (v / 3) % 4)).map
+    (fun i => { target := (v + 2 * i) % 4, value := v * 1000 + 500 + i, ow := (v + i) % 3 = 0 })
+  recreate := fun x => x.value % 5 = 0
 
 structure Sys where
   stall : Bool := false
@@ -316,7 +390,15 @@ def Entry.render : Entry → String
 
 def AdHoc.render (a : AdHoc) : String := s!"{a.target}:{a.value}:{boolBit a.ow}"
 
-def renderAds (as : List AdHoc) : String := if as.isEmpty then "-" else ",".intercalate (as.map AdHoc.render)
+def Rec.render : Rec → String
+  | .addressed a => a.render
+  | .register t id => s!"R{t}={id}"
+  | .byId id v ow => s!"#{id}:{v}:{boolBit ow}"
+
+def renderAds (as : List Rec) : String := if as.isEmpty then "-" else ",".intercalate (as.map Rec.render)
+
+/-- what the monitor expects for an intended command: `a:` = with its address, `c:` = through a commander -/
+def renderIntended (p : Bool × AdHoc) : String := (if p.1 then "c:" else "a:") ++ p.2.render
 
 def renderLog (es : List Entry) : String := if es.isEmpty then "-" else ",".intercalate (es.map Entry.render)
 
@@ -384,7 +466,10 @@ structure Mon where
   -- can be ambiguous: `handled` is the most that can still be un-echoed, `handledMin` the least.
   handled : List Nat := []
   handledMin : List Nat := []
-  owedAds : List String := []   -- ad hoc commands issued by handlers and not yet read from the channel, oldest first
+  -- commands sent by handlers (`a:<target>:<value>:<ow>` with an address, `c:…` through a commander, with the
+  -- target MEANT) and not yet read from the channel, oldest first
+  owedAds : List String := []
+  bound : List (Nat × Nat) := []   -- id ↦ target, from the `Register` records read so far (what the runtime will use)
   deriving Repr
 
 def expectedLog (v : Nat) : List Entry :=
@@ -401,16 +486,43 @@ def dropThroughFirst (v : Nat) : List Nat → Option (List Nat)
 def dropThroughLast (v : Nat) (l : List Nat) : List Nat :=
   if l.contains v then (l.reverse.takeWhile (fun x => !(x == v))).reverse else []
 
-/-- records read from the ad hoc channel must be the oldest owed commands, in order -/
+/-- `c:<t>:<v>:<ow>` ↦ `<v>:<ow>` -/
+def afterTarget (k : String) : String := ":".intercalate ((k.splitOn ":").drop 2)
+
+/-- Records read from the ad hoc channel. A `Register` binds an id — never an id already bound to ANOTHER target; a
+command (resolved through the bindings if it carries an id, as the runtime will) must be the oldest owed command,
+for the target it was meant for. -/
 def Mon.seeAds (m : Mon) : List String → Mon × Option String
   | [] => (m, none)
   | x :: rest =>
-    match m.owedAds with
-    | o :: os =>
-      if o = x then Mon.seeAds { m with owedAds := os } rest
-      else if os.contains x then (m, some "agent-command-dropped-or-reordered")
-      else (m, some "agent-command-duplicated-or-invented")
-    | [] => (m, some "agent-command-duplicated-or-invented")
+    if x.startsWith "R" then
+      match ((x.drop 1).toString.splitOn "=").map String.toNat? with
+      | [some t, some id] =>
+        match alGet m.bound id with
+        | some t' =>
+          if t' = t then Mon.seeAds m rest else (m, some "commander-id-reused-for-other-target")
+        | none => Mon.seeAds { m with bound := alSet m.bound id t } rest
+      | _ => (m, some "unparsable")
+    else
+      let key : Option String :=
+        if x.startsWith "#" then
+          match (x.drop 1).toString.splitOn ":" with
+          | id :: vs => match id.toNat? with
+            | some id => (alGet m.bound id).map (fun t => s!"c:{t}:" ++ ":".intercalate vs)
+            | none => none
+          | [] => none
+        else some ("a:" ++ x)
+      match key with
+      | none => (m, some "commander-command-unregistered-id")
+      | some key =>
+        match m.owedAds with
+        | o :: os =>
+          if o = key then Mon.seeAds { m with owedAds := os } rest
+          else if key.startsWith "c:" && o.startsWith "c:" && afterTarget o = afterTarget key then
+            (m, some "commander-command-misrouted")
+          else if os.contains key then (m, some "agent-command-dropped-or-reordered")
+          else (m, some "agent-command-duplicated-or-invented")
+        | [] => (m, some "agent-command-duplicated-or-invented")
 
 def Mon.step (m : Mon) (line : String) (out : String) : Mon × Option String :=
   match words out with
@@ -427,7 +539,7 @@ def Mon.step (m : Mon) (line : String) (out : String) : Mon × Option String :=
         if hv = renderLog e then
           ({ m with owedItems := m.owedItems ++ pushedItems e, handled := m.handled ++ invoked e,
                     handledMin := m.handledMin ++ invoked e,
-                    owedAds := m.owedAds ++ (rigHandler.issuedBy v).map AdHoc.render }, none)
+                    owedAds := m.owedAds ++ (rigHandler.intendedBy v).map renderIntended }, none)
         else if hv = "-" then (m, some "command-handler-not-invoked")
         else (m, some "command-handler-invoked-wrongly")
       | _, _ => if hv = "-" then (m, none) else (m, some "command-handler-invoked-without-command")
@@ -482,5 +594,65 @@ def Mon.step (m : Mon) (line : String) (out : String) : Mon × Option String :=
     match words line with
     | "new" :: _ => ({}, none)
     | _ => (m, some "unparsable")
+
+/-! ### Monitor of the end-to-end rig `sv-adh` (real agent on the real runtime; the harness serves the target channels)
+`cmd <v>` | `take <t> <n>` → `got <t>:<value>,…` | `drain` → `all <t>:<value>,…`. What target `t`'s channels have
+delivered must be a SUPERSESSION of the commands meant for `t` (ad hoc and through commanders alike): in order, only
+overwritable commands missing and only when a later command for `t` exists; after a `drain` nothing is outstanding.
+A command meant for another target is `commander-command-misrouted` / `agent-command-misrouted`. -/
+
+structure AdhMon where
+  intended : List (Bool × AdHoc) := []
+  received : List (Nat × Nat) := []     -- (target, value), in delivery order per target
+  deriving Repr
+
+/-- greedy supersession check; `ok n` = `n` trailing commands not yet delivered, `error x` = `x` does not fit -/
+def matchSup : List (Bool × AdHoc) → List Nat → Except Nat Nat
+  | app, [] => .ok app.length
+  | [], x :: _ => .error x
+  | a :: rest, x :: xs =>
+    if a.2.value = x then matchSup rest xs
+    else if a.2.ow && !rest.isEmpty then matchSup rest (x :: xs)
+    else .error x
+
+def AdhMon.check (m : AdhMon) (quiescent : Bool) : Option String :=
+  let targets := ((m.intended.map (·.2.target)) ++ m.received.map (·.1)).eraseDups
+  targets.foldl (fun (acc : Option String) t =>
+    match acc with
+    | some e => some e
+    | none =>
+      match matchSup (m.intended.filter (·.2.target = t)) ((m.received.filter (·.1 = t)).map (·.2)) with
+      | .ok n => if quiescent && n > 0 then some "agent-command-not-forwarded" else none
+      | .error x =>
+        match m.intended.find? (fun p => p.2.value = x) with
+        | some p =>
+          if p.2.target = t then some "agent-command-dropped-duplicated-or-reordered"
+          else if p.1 then some "commander-command-misrouted" else some "agent-command-misrouted"
+        | none => some "agent-command-duplicated-or-invented") none
+
+def AdhMon.step (m : AdhMon) (line : String) (out : String) : AdhMon × Option String :=
+  let ws := match words line with
+    | "!cmd" :: rest => "cmd" :: rest
+    | ws => ws
+  match ws, words out with
+  | "new" :: _, _ => ({}, none)
+  | ["cmd", b], ["ok"] =>
+    match parseBody b with
+    | .ok v => ({ m with intended := m.intended ++ rigHandler.intendedBy v }, none)
+    | .bad => (m, none)
+  | [kind, _, _], [_, items] | [kind], [_, items] =>
+    if kind ≠ "take" && kind ≠ "drain" then (m, some "unparsable") else
+    let parsed := if items = "-" then some [] else
+      (items.splitOn ",").mapM (fun x => match x.splitOn ":" with
+        | [t, v] => match t.toNat?, v.toNat? with
+          | some t, some v => some (t, v)
+          | _, _ => none
+        | _ => none)
+    match parsed with
+    | none => (m, some (if items.contains '!' then "agent-command-on-wrong-channel" else "unparsable"))
+    | some got =>
+      let m' := { m with received := m.received ++ got }
+      (m', m'.check (kind = "drain"))
+  | _, _ => (m, some "unparsable")
 
 end SwimVerif.CL
